@@ -818,7 +818,7 @@ _FLOORS_EXTRA = {'counters': {'numeric_step_lands_exactly_on_last': 50},
                  'monitors': {'temporal.same_reference_second_track': 1000, 'sample.single_instant': 1000,
                               'temporal.result_independent_of_the_callers_instants': 5000,
                               'temporal.second_reference_with_the_same_ends': 1000},
-                 'classes': {'floordiv_operator': 300, 'step_given_as_numpy_scalar': 500,
+                 'classes': {'timestamps_carrying_a_time_zone_label': 3000, 'floordiv_operator': 300, 'step_given_as_numpy_scalar': 500,
                              'scale_hundreds_of_fixes_and_instants': 30}}
 
 
